@@ -46,14 +46,18 @@ extern int vf_nowrap;
 #define VF_REACH() __CPROVER_assert(0, "VF_REACH")
 static inline uint64_t vf_u64(void) {
   uint64_t v = nondet_u64();
+#ifndef VF_NOLOG /* very large instances (no solver trace is read back from them) skip the input log */
   vf_in[vf_nin++] = v;
+#endif
   return v;
 }
 static inline double vf_f64(void) {
   double x = nondet_f64();
+#ifndef VF_NOLOG
   uint64_t v;
   memcpy(&v, &x, 8);
   vf_in[vf_nin++] = v;
+#endif
   return x;
 }
 #else
@@ -95,7 +99,7 @@ static inline int64_t vf_i64(void) { return (int64_t)vf_u64(); }
 /* exactly-sized heap object of n 64-bit words, contents nondeterministic (also the native replay
  * fills it from the input stream, so "depends on previous contents" is replayable) */
 static inline uint64_t* vf_alloc_words(uint64_t n) {
-  uint64_t* p = (uint64_t*)malloc(n ? n * 8 : 1);
+  uint64_t* p = (uint64_t*)malloc(n * sizeof(uint64_t)); /* typed size expression: CBMC then models the object as uint64_t[n], not bytes */
 #ifdef __CPROVER__
   __CPROVER_assume(p != 0);
 #endif
@@ -103,14 +107,14 @@ static inline uint64_t* vf_alloc_words(uint64_t n) {
   return p;
 }
 static inline uint64_t* vf_alloc_words_raw(uint64_t n) {
-  uint64_t* p = (uint64_t*)malloc(n ? n * 8 : 1);
+  uint64_t* p = (uint64_t*)malloc(n * sizeof(uint64_t)); /* typed size expression: CBMC then models the object as uint64_t[n], not bytes */
 #ifdef __CPROVER__
   __CPROVER_assume(p != 0);
 #endif
   return p;
 }
 static inline uint64_t* vf_snapshot(const uint64_t* p, uint64_t n) {
-  uint64_t* s = (uint64_t*)malloc(n ? n * 8 : 1);
+  uint64_t* s = (uint64_t*)malloc(n * sizeof(uint64_t));
 #ifdef __CPROVER__
   __CPROVER_assume(s != 0);
 #endif
